@@ -35,7 +35,13 @@ var mwLastAge int
 var mwInside func()
 
 func mwRequest(s *server, method string, outcome int, maxAge int, resp *cache.HTTPResponse) (label cache.Status, downstream int, err error, panicked bool) {
-	req := &http.Request{Method: method, Host: "h", RequestURI: "/a"}
+	return mwRequestTo(s, method, "h", "/a", outcome, maxAge, resp)
+}
+
+var mwLastResp *cache.HTTPResponse
+
+func mwRequestTo(s *server, method, host, uri string, outcome int, maxAge int, resp *cache.HTTPResponse) (label cache.Status, downstream int, err error, panicked bool) {
+	req := &http.Request{Method: method, Host: host, RequestURI: uri}
 	c := elton.NewContext(&c15Writer{h: http.Header{}}, req)
 	c.Next = func() error {
 		downstream++
@@ -60,6 +66,7 @@ func mwRequest(s *server, method string, outcome int, maxAge int, resp *cache.HT
 	}
 	panicked = verifExpectPanic(func() { err = NewCache(s)(c) })
 	label = getCacheStatus(c)
+	mwLastResp = getHTTPResp(c)
 	if label == cache.StatusHit {
 		verifAssert("MW.hit-sets-response-and-age", getHTTPResp(c) != nil && getHTTPRespAge(c) >= 0)
 		mwLastAge = getHTTPRespAge(c)
@@ -176,4 +183,36 @@ func Harness_MW_pass_leaves_entry() {
 	}
 	verifAssert("C07.passed-request-leaves-the-entry-untouched", same)
 	verifReach("MW.pass.end")
+}
+
+// C06 at the middleware: a response stored for one (method, host, URI) is never served to a request
+// that differs in any of the three, across the whole path getKey -> dispatcher -> entry, including
+// whatever the middleware does with the key bytes afterwards (the dispatcher keeps the key bytes as
+// its map key without copying them, so they must never be written again: engine check "frozen").
+func Harness_C06_middleware_isolation() {
+	cache.ResetDispatchers([]config.CacheConfig{{Name: "c", Size: 16}})
+	s := NewServer(ServerOption{Addr: ":80", Cache: "c"})
+	respA := &cache.HTTPResponse{StatusCode: 200}
+	respB := &cache.HTTPResponse{StatusCode: 201}
+	l1, _, _, _ := mwRequestTo(s, "GET", "h", "/a1", mwCacheable, 60, respA)
+	verifAssume(l1 == cache.StatusFetching)
+	// a second request: the same one, or one differing in exactly one component (same lengths)
+	methods := []string{"GET", "GET", "GET", "HEAD"}
+	hosts := []string{"h", "h", "g", "h"}
+	uris := []string{"/a1", "/a2", "/a1", "/a1"}
+	k := verifChoice("second", 4)
+	l2, n2, _, _ := mwRequestTo(s, methods[k], hosts[k], uris[k], mwCacheable, 60, respB)
+	verifAssert("C06.mw.key-bytes-are-not-written-after-lookup", !verifFrozenWrite())
+	if k != 0 {
+		verifAssert("C06.mw.different-request-is-not-served-from-the-entry", l2 == cache.StatusFetching && n2 == 1 && mwLastResp == respB)
+		verifReach("C06.mw.different")
+	}
+	// the first request again: if it is still a hit, it is the response stored for it
+	l3, _, _, _ := mwRequestTo(s, "GET", "h", "/a1", mwUncacheable, 0, respB)
+	if l3 == cache.StatusHit {
+		verifAssert("C06.mw.hit-returns-own-response", verifOr(mwLastResp == respA, k == 0))
+		verifReach("C06.mw.hit-again")
+	}
+	verifAssert("C06.mw.key-bytes-are-not-written-after-lookup", !verifFrozenWrite())
+	verifReach("C06.mw.end")
 }
